@@ -46,11 +46,21 @@ type reqCtx struct {
 	R      time.Duration
 }
 
+// Send hands the request over in a buffer of the caller's, which the caller
+// overwrites as soon as Send has returned (Send([]byte) copies: what is
+// retransmitted later is what was sent, not what the buffer holds by then).
 func (c *reqCtx) Send(b []byte) error {
+	scratch := append(make([]byte, 0, len(b)+16), b...)
+	var err error
 	if c.c != nil {
-		return c.c.Send(b)
+		err = c.c.Send(scratch)
+	} else {
+		err = c.s.Send(scratch)
 	}
-	return c.s.Send(b)
+	for i := range scratch {
+		scratch[i] = '#'
+	}
+	return err
 }
 func (c *reqCtx) Recv() ([]byte, error) {
 	if c.c != nil {
